@@ -318,9 +318,9 @@ FreshObj(o) == life[o] = "free" /\ \A o2 \in Obj : life[o2] = "free" => o2 >= o
 \* successful compare_exchange carries the stamp the link had); handles are counted, not tracked, so a
 \* handle's stamp is any epoch of the past.  AtomicRc::from(rc) copies the word unchanged.
 HandleStamps == {0} \cup {e % M : e \in (IF gep >= M THEN gep - M + 1 ELSE 0)..gep}
-New(t) ==   \* Rc::new, optionally with next = AtomicRc::from(rc) (no re-stamping, strong.rs:375-384)
+NewAt(t, o, v, hs, ht) ==   \* Rc::new, optionally with next = AtomicRc::from(rc) (no re-stamping, strong.rs:375-384)
     /\ CanOp(t, "new")
-    /\ \E o \in Obj, v \in Obj \cup {NULL}, hs \in HandleStamps, ht \in Tags :   \* the handle's tag is copied too
+    /\   /\ o \in Obj /\ hs \in HandleStamps                                         \* the handle's tag is copied too
          /\ FreshObj(o) /\ (v # NULL => rc[t][v] > 0) /\ (v = NULL => hs = 0)
          /\ life' = [life EXCEPT ![o] = "live"]
          /\ cnt' = [cnt EXCEPT ![o] = [ZeroCnt EXCEPT !.s = 1, !.w = 1]]
@@ -328,15 +328,26 @@ New(t) ==   \* Rc::new, optionally with next = AtomicRc::from(rc) (no re-stampin
          /\ lnk' = [lnk EXCEPT ![<<"f", o, 1>>] = [p |-> v, tag |-> ht, ts |-> hs]]
     /\ Start(t)
     /\ UNCHANGED <<gep, mode, lep, wlnk, tasks, pc, reg, cret, wk, it, sn, ws>>
+New(t) == \E o \in Obj, v \in Obj \cup {NULL}, hs \in HandleStamps, ht \in Tags : NewAt(t, o, v, hs, ht)
+MaxMany == IF CountOps THEN 2 ELSE 4     \* bulk sizes explored by the design configurations / seen in traces
 NewMany(t) ==   \* Rc::new_many::<N> / new_many_iter (strong.rs:473-494): n handles, m un-yielded shares
     /\ CanOp(t, "new_many")
-    /\ \E o \in Obj, n \in 0..2, m \in 0..2 :
+    /\ \E o \in Obj, n \in 0..MaxMany, m \in 0..MaxMany :
          /\ FreshObj(o) /\ (n + m > 0 \/ "newmany0" \notin Fix)
          /\ life' = [life EXCEPT ![o] = "live"]
          /\ cnt' = [cnt EXCEPT ![o] = [ZeroCnt EXCEPT !.s = n + m, !.w = 1]]
          /\ rc' = [rc EXCEPT ![t][o] = n] /\ it' = [it EXCEPT ![t][o] = m]
     /\ Start(t)
     /\ UNCHANGED <<gep, mode, lep, lnk, wlnk, tasks, pc, reg, cret, wk, sn, ws>>
+NewMany0(t) ==  \* repair "newmany0": new_many::<0> / new_many_iter(_, 0) build the object and drop it at once (strong.rs:493-497, 513-520)
+    /\ CanOp(t, "new_many") /\ "newmany0" \in Fix
+    /\ \E o \in Obj :
+         /\ FreshObj(o)
+         /\ life' = [life EXCEPT ![o] = "live"]
+         /\ cnt' = [cnt EXCEPT ![o] = [ZeroCnt EXCEPT !.s = 1, !.w = 1]]
+         /\ Call(t, o, "dec_pin", "idle", "none", 1, FALSE)
+    /\ Start(t)
+    /\ UNCHANGED <<gep, mode, lep, lnk, wlnk, tasks, cret, rc, wk, it, sn, ws>>
 IterNext(t) ==
     /\ CanOp(t, "iter_next")
     /\ \E o \in Obj : it[t][o] > 0 /\ it' = [it EXCEPT ![t][o] = @ - 1] /\ rc' = [rc EXCEPT ![t][o] = @ + 1]
@@ -390,10 +401,9 @@ Reaches(a, b) ==   \* b reachable from a through strong links (clients keep the 
     LET RECURSIVE R(_, _)
         R(S, n) == IF n = 0 THEN S ELSE R(S \cup {lnk[<<"f", o, f>>].p : o \in S \ {NULL}, f \in Fld}, n - 1)
     IN b \in R({a}, NObj)
-LinkOp(t, name, entry) ==
+LinkOpAt(t, name, entry, l, v, vt, ex, et) ==      \* the call with its arguments (trace validation binds them)
     /\ CanOp(t, name) /\ (name # "swap" => mode[t] = "in")
-    /\ \E l \in SLoc, v \in Obj \cup {NULL}, vt \in Tags, ex \in Obj \cup {NULL}, et \in Tags :
-         /\ CanUse(t, l)
+    /\   /\ l \in SLoc /\ CanUse(t, l)
          /\ v # NULL => (rc[t][v] > 0 /\ (l[1] = "f" => ~Reaches(v, l[2])))
          /\ IF name \in {"cas", "cas_tag"} THEN ex = NULL \/ ex \in sn[t] ELSE ex = NULL /\ et = 0
          /\ name = "cas_tag" => v = NULL
@@ -402,6 +412,8 @@ LinkOp(t, name, entry) ==
          /\ cret' = [cret EXCEPT ![t] = entry]
     /\ Start(t)
     /\ UNCHANGED <<gep, mode, lep, cnt, life, lnk, wlnk, tasks, rc, wk, it, sn, ws>>
+LinkOp(t, name, entry) ==
+    \E l \in SLoc, v \in Obj \cup {NULL}, vt \in Tags, ex \in Obj \cup {NULL}, et \in Tags : LinkOpAt(t, name, entry, l, v, vt, ex, et)
 LinkEp(t) ==   \* with_timestamp reads the global epoch (strong.rs:75-83)
     /\ pc[t] = "ts_ep"
     /\ reg' = [reg EXCEPT ![t].e = gep]
@@ -450,7 +462,7 @@ CasTagTry(t) ==
 \* weak side (weak.rs, strong.rs:502-507, 548-556)
 Downgrade(t) ==   \* Rc::downgrade / Rc::weak_many::<n>
     /\ CanOp(t, "downgrade")
-    /\ \E o \in Obj, n \in 1..2 : rc[t][o] > 0 /\ Call(t, o, "incw1", "wk_fin", "none", n, FALSE)
+    /\ \E o \in Obj, n \in 0..MaxMany : rc[t][o] > 0 /\ Call(t, o, "incw1", "wk_fin", "none", n, FALSE)
     /\ Start(t) /\ UA
 WClone(t) ==      \* Weak::clone / WeakSnapshot::counted
     /\ CanOp(t, "wclone")
@@ -485,19 +497,23 @@ WLoad(t) ==
     /\ \E l \in WLoc : CanUseW(t, l) /\ wlnk[l].p # NULL /\ ws' = [ws EXCEPT ![t] = @ \cup {wlnk[l].p}]
     /\ Start(t)
     /\ UNCHANGED <<gep, mode, lep, cnt, life, lnk, wlnk, tasks, pc, reg, cret, rc, wk, it, sn>>
-WLinkOp(t, name, entry) ==
+\* tags on weak links (weak.rs:170-253): a Weak / WeakSnapshot carries the tag of the word it came from
+WTags == IF "wcas_tag" \in OpsEnabled THEN Tags ELSE {0}
+WLinkOpAt(t, name, entry, l, v, vt, ex, et) ==
     /\ CanOp(t, name) /\ (name # "wswap" => mode[t] = "in")
-    /\ \E l \in WLoc, v \in Obj \cup {NULL}, ex \in Obj \cup {NULL} :
-         /\ CanUseW(t, l) /\ (v # NULL => wk[t][v] > 0)
-         /\ IF name = "wcas" THEN ex = NULL \/ ex \in ws[t] ELSE ex = NULL
-         /\ reg' = [reg EXCEPT ![t] = [NoReg EXCEPT !.c = l, !.x = v, !.ex = ex]]
+    /\   /\ l \in WLoc /\ CanUseW(t, l) /\ (v # NULL => wk[t][v] > 0)
+         /\ IF name \in {"wcas", "wcas_tag"} THEN ex = NULL \/ ex \in ws[t] ELSE ex = NULL /\ et = 0
+         /\ name = "wcas_tag" => v = NULL
+         /\ reg' = [reg EXCEPT ![t] = [NoReg EXCEPT !.c = l, !.x = v, !.xt = vt, !.ex = ex, !.ext = et]]
     /\ Goto(t, entry) /\ Start(t)
     /\ UNCHANGED <<gep, mode, lep, cnt, life, lnk, wlnk, tasks, cret, rc, wk, it, sn, ws>>
+WLinkOp(t, name, entry) ==
+    \E l \in WLoc, v \in Obj \cup {NULL}, vt \in WTags, ex \in Obj \cup {NULL}, et \in WTags : WLinkOpAt(t, name, entry, l, v, vt, ex, et)
 WMoved(t, plus, minus) == [o \in Obj |-> wk[t][o] + (IF o = plus THEN 1 ELSE 0) - (IF o = minus THEN 1 ELSE 0)]
 WStoreSwap(t) ==
     /\ pc[t] = "wst_swap"
     /\ LET l == reg[t].c  old == wlnk[l].p IN
-       /\ wlnk' = [wlnk EXCEPT ![l] = [p |-> reg[t].x, tag |-> 0, ts |-> 0]]
+       /\ wlnk' = [wlnk EXCEPT ![l] = [p |-> reg[t].x, tag |-> reg[t].xt, ts |-> 0]]
        /\ wk' = [wk EXCEPT ![t] = WMoved(t, NULL, reg[t].x)]
        /\ IF old = NULL THEN Goto(t, "idle") /\ UNCHANGED reg
           ELSE Call(t, old, "decw", "idle", "none", 1, TRUE)
@@ -505,20 +521,29 @@ WStoreSwap(t) ==
 WSwapSwap(t) ==
     /\ pc[t] = "wsw_swap"
     /\ LET l == reg[t].c IN
-       /\ wlnk' = [wlnk EXCEPT ![l] = [p |-> reg[t].x, tag |-> 0, ts |-> 0]]
+       /\ wlnk' = [wlnk EXCEPT ![l] = [p |-> reg[t].x, tag |-> reg[t].xt, ts |-> 0]]
        /\ wk' = [wk EXCEPT ![t] = WMoved(t, wlnk[l].p, reg[t].x)]
     /\ Goto(t, "idle")
     /\ UNCHANGED <<gep, mode, lep, cnt, life, lnk, tasks, reg, cret, rc, it, sn, ws, nops>>
 WCasTry(t) ==
     /\ pc[t] = "wcas_try"
     /\ LET l == reg[t].c  cur == wlnk[l] IN
-       IF cur.p = reg[t].ex
-       THEN /\ wlnk' = [wlnk EXCEPT ![l] = [p |-> reg[t].x, tag |-> 0, ts |-> 0]]
+       IF cur.p = reg[t].ex /\ cur.tag = reg[t].ext
+       THEN /\ wlnk' = [wlnk EXCEPT ![l] = [p |-> reg[t].x, tag |-> reg[t].xt, ts |-> 0]]
             /\ wk' = [wk EXCEPT ![t] = WMoved(t, reg[t].ex, reg[t].x)]
             /\ UNCHANGED ws
        ELSE /\ ws' = [ws EXCEPT ![t] = @ \cup ({cur.p} \ {NULL})] /\ UNCHANGED <<wlnk, wk>>
     /\ Goto(t, "idle")
     /\ UNCHANGED <<gep, mode, lep, cnt, life, lnk, tasks, reg, cret, rc, it, sn, nops>>
+
+WCasTagTry(t) ==   \* AtomicWeak::compare_exchange_tag (weak.rs:221-253): pointer kept, tag replaced, no count moves
+    /\ pc[t] = "wcast_try"
+    /\ LET l == reg[t].c  cur == wlnk[l] IN
+       IF cur.p = reg[t].ex /\ cur.tag = reg[t].ext
+       THEN wlnk' = [wlnk EXCEPT ![l].tag = reg[t].xt] /\ UNCHANGED ws
+       ELSE ws' = [ws EXCEPT ![t] = @ \cup ({cur.p} \ {NULL})] /\ UNCHANGED wlnk
+    /\ Goto(t, "idle")
+    /\ UNCHANGED <<gep, mode, lep, cnt, life, lnk, tasks, reg, cret, rc, wk, it, sn, nops>>
 
 \* guards
 Pin(t) ==
@@ -549,15 +574,15 @@ Atomic(t) ==
          \/ IncW1(t) \/ IncW2(t) \/ DecW(t) \/ TDealloc(t) \/ Free(t) \/ TD(t)
          \/ DG0(t) \/ DG1(t) \/ DG2(t) \/ DGM(t) \/ DG3(t) \/ DGWDecW(t) \/ DG4(t) \/ DGDecW(t) \/ DGFree(t) \/ DG6(t)
          \/ LinkEp(t) \/ StoreSwap(t) \/ SwapSwap(t) \/ CasTry(t) \/ CasTagTry(t)
-         \/ WStoreSwap(t) \/ WSwapSwap(t) \/ WCasTry(t)
+         \/ WStoreSwap(t) \/ WSwapSwap(t) \/ WCasTry(t) \/ WCasTagTry(t)
 ApiCall(t) ==
-         \/ New(t) \/ NewMany(t) \/ IterNext(t) \/ IterEnd(t)
+         \/ New(t) \/ NewMany(t) \/ NewMany0(t) \/ IterNext(t) \/ IterEnd(t)
          \/ Clone(t) \/ Counted(t) \/ Upgrade(t) \/ Drop(t) \/ Snap(t) \/ Load(t)
          \/ LinkOp(t, "store", "st_swap") \/ LinkOp(t, "swap", "sw_swap")
          \/ LinkOp(t, "cas", "cas_try") \/ LinkOp(t, "cas_tag", "cast_try")
          \/ Downgrade(t) \/ WClone(t) \/ DropWeak(t) \/ WSnap(t) \/ WSUpgrade(t)
          \/ WLoad(t) \/ WLinkOp(t, "wstore", "wst_swap") \/ WLinkOp(t, "wswap", "wsw_swap")
-         \/ WLinkOp(t, "wcas", "wcas_try")
+         \/ WLinkOp(t, "wcas", "wcas_try") \/ WLinkOp(t, "wcas_tag", "wcast_try")
          \/ Pin(t) \/ Unpin(t) \/ Collect(t)
 TStep(t) == Silent(t) \/ Atomic(t) \/ ApiCall(t)
 Next == Advance \/ \E t \in Thr : TStep(t)
